@@ -118,6 +118,10 @@ Proof. exact generated_deps. Qed.
 Theorem c12_modelled_functions_unchanged_request : shapes_hold fn_shapes shapes_request = true.
 Proof. exact generated_shapes_request. Qed.
 
+(* the cargo features are independent switches with nothing on by default: a feature set of the model means exactly its cfgs *)
+Theorem c12_feature_table_unchanged : features_hold cargo_features = true.
+Proof. exact generated_features. Qed.
+
 Eval vm_compute in "ASSUMPTIONS c12_limits_generated". Print Assumptions c12_limits_generated.
 Eval vm_compute in "ASSUMPTIONS c12_limits_spec". Print Assumptions c12_limits_spec.
 Eval vm_compute in "ASSUMPTIONS c12_bytes_exact". Print Assumptions c12_bytes_exact.
@@ -137,3 +141,4 @@ Eval vm_compute in "ASSUMPTIONS c12_accepted_is_within_limits". Print Assumption
 Eval vm_compute in "ASSUMPTIONS c12_accepted_is_within_limits_generic". Print Assumptions c12_accepted_is_within_limits_generic.
 Eval vm_compute in "ASSUMPTIONS c12_modelled_dependencies_pinned". Print Assumptions c12_modelled_dependencies_pinned.
 Eval vm_compute in "ASSUMPTIONS c12_modelled_functions_unchanged_request". Print Assumptions c12_modelled_functions_unchanged_request.
+Eval vm_compute in "ASSUMPTIONS c12_feature_table_unchanged". Print Assumptions c12_feature_table_unchanged.
